@@ -564,8 +564,15 @@ def prop_realize(rec):
     return prop
 
 
+def _comps(p):
+    # (the root directory of an absolute path, `/` or `C:/`, splits with a
+    # trailing empty component: it is the directory above `/a`, `C:/a`)
+    c = p.split()
+    return c[:-1] if len(c) > 1 and c[-1] == '' else c
+
+
 def _ancestor_or_self(anc, p):
-    a, b = anc.split(), p.split()
+    a, b = _comps(anc), _comps(p)
     return anc.root == p.root and a == b[:len(a)]
 
 
@@ -598,8 +605,8 @@ def prop_setops(rec):
                                     '{!r} is not an ancestor of {!r}'.format(
                                         cp, p), case)
             # no deeper common ancestor
-            splits = [p.split() for p in ps]
-            n = len(cp.split())
+            splits = [_comps(p) for p in ps]
+            n = len(_comps(cp))
             if all(len(s) > n for s in splits) and \
                     len({s[n] for s in splits}) == 1:
                 raise Violation('commonprefix/not-deepest',
@@ -663,8 +670,10 @@ def strategy_for(group):
     if group == 'setops':
         @st.composite
         def many(draw):
-            root = draw(roots)
+            root = draw(st.sampled_from(ROOTS + ['absolute', 'absolute',
+                                                 'absolute']))
             n = draw(st.integers(1, 6))
+            aprefix = draw(st.sampled_from(['/', '/', 'C:/', '//srv/share/']))
             out = []
             for _ in range(n):
                 d = draw(path_descs(allow_abs=False))
@@ -677,6 +686,9 @@ def strategy_for(group):
                     d['s'] = '/'.join(draw(st.lists(
                         st.sampled_from(['a', 'b', 'ab', 'a.b']), min_size=0,
                         max_size=4)))
+                if d['root'] == 'absolute':
+                    # absolute paths: from the root, a drive or a share
+                    d['s'] = aprefix + d['s'].lstrip('/\\')
                 out.append(d)
             return {'flavour': draw(flavours), 'paths': out}
         return many()
